@@ -53,12 +53,29 @@ def scalarText (r : Raw) : Option String :=
   | .none => some "None"
   | _ => none
 
-/-- `serialize_value`; `isResult` = the parameter (lists unwrapped) is a ResultParameter -/
-partial def serializeValue (isResult : Bool) : Raw → Option String
-  | .cmd n => some n
-  | .list xs => (xs.mapM (serializeValue isResult)).map fun ss => "[" ++ ", ".intercalate ss ++ "]"
-  | .str s => some (if isResult then s else quoteStr s)
-  | r => scalarText r
+mutual
+  /-- `serialize_value`; `isResult` = the parameter (lists unwrapped) is a ResultParameter -/
+  def serializeValue (isResult : Bool) : Raw → Option String
+    | .cmd n => some n
+    | .list xs => (serializeValues isResult xs).map fun ss => "[" ++ ", ".intercalate ss ++ "]"
+    | .str s => some (if isResult then s else quoteStr s)
+    | .int n => scalarText (.int n)
+    | .float q => scalarText (.float q)
+    | .bool b => scalarText (.bool b)
+    | .dict kv => scalarText (.dict kv)
+    | .pytype t => scalarText (.pytype t)
+    | .none => scalarText .none
+  /-- the items of a list, each serialised; `none` as soon as one item has no text form -/
+  def serializeValues (isResult : Bool) : List Raw → Option (List String)
+    | [] => some []
+    | x :: xs =>
+        match serializeValue isResult x with
+        | none => none
+        | some a =>
+          match serializeValues isResult xs with
+          | none => none
+          | some b => some (a :: b)
+end
 
 def serializeArgument (isResult : Bool) (a : Arg) : Option String :=
   match a.value with
@@ -67,7 +84,7 @@ def serializeArgument (isResult : Bool) (a : Arg) : Option String :=
         "[\n" ++ ",\n".intercalate rows ++ "\n    ]"
   | v => serializeValue isResult v
 
-partial def specIsResult : PSpec → Bool
+def specIsResult : PSpec → Bool
   | .result _ _ => true
   | .list s => specIsResult s
   | _ => false
